@@ -4,6 +4,7 @@
 set -euo pipefail
 OUT="$1"
 REPO="${VERIF_REPO:-/repo}"
+VDIR="${VERIF_DIR:-/verif}"
 export GOFLAGS=-mod=mod GOPROXY=off GOSUMDB=off GOTOOLCHAIN=local
 GO=go1.26.8
 export PATH="/opt/veriftools/go1.26.8/bin:$PATH"
@@ -20,7 +21,7 @@ mkdir -p "$OUT/src/rpc"
 for f in "$REPO"/*.go; do
   case "$f" in *_test.go) ;; *) cp "$f" "$OUT/src/rpc/";; esac
 done
-cp /verif/harness/access/zz_verif_access.go.txt "$OUT/src/rpc/zz_verif_access.go"
+cp "$VDIR/harness/access/zz_verif_access.go.txt" "$OUT/src/rpc/zz_verif_access.go"
 for m in $MODS; do
   v=$(modver github.com/hslam/$m)
   if [ -z "$v" ]; then echo "instrument: cannot resolve version of hslam/$m" >&2; exit 2; fi
@@ -38,7 +39,7 @@ for m in $MODS; do REPL="$REPL
 replace github.com/hslam/$m => $OUT/src/$m"; done
 REPL="$REPL
 replace github.com/hslam/rpc => $OUT/src/rpc
-replace verif/sim => /verif/sim"
+replace verif/sim => $VDIR/sim"
 writemod() { # dir modpath origgomod
   local dir="$1" path="$2" orig="$3"
   {
@@ -63,4 +64,4 @@ done
 # rewrite
 DIRS="$OUT/src/rpc"
 for m in $MODS; do DIRS="$DIRS $OUT/src/$m"; done
-/verif/bin/simgo ${SIMGO_FLAGS:-} $DIRS
+"$VDIR/bin/simgo" ${SIMGO_FLAGS:-} $DIRS
